@@ -3,6 +3,7 @@ import ScrapliModel.Timeout
 import ScrapliModel.Generated.Patterns
 import ScrapliModel.Generated.C05Patterns
 import ScrapliModel.Generated.Consts
+import ScrapliModel.Generated.SshErrors
 namespace Driver.C05
 open Scrapli Scrapli.Chan Scrapli.Timeout
 
@@ -106,6 +107,28 @@ def parseCallbacks : Nat → List String → Option (List Callback)
             send := if s.isEmpty then [] else [s], next := none } :: cbs)
   | _, _ => none
 
+/-- callbacks with all their options: `trigger notContains complete send nextTimeout`
+    (`-` = absent); the trigger fires when the (lower-cased) output contains `trigger` and not
+    `notContains` -/
+def parseCallbacksX : Nat → List String → Option (List Callback)
+  | 0, _ => some []
+  | n + 1, trig :: notc :: comp :: send :: next :: rest => do
+    let t ← fromHex trig
+    let nc ← fromHex notc
+    let s ← fromHex send
+    let cbs ← parseCallbacksX n rest
+    pure ({ trig := fun b => containsFold t b && (nc.isEmpty || !containsFold nc b),
+            complete := s2b comp, reset := true,
+            send := if s.isEmpty then [] else [s], next := if next == "-" then none else next.toNat? } :: cbs)
+  | _, _ => none
+
+/-- `sshMessageHandler`: the lower-cased buffer contains one of the error texts of the regenerated
+    table (a row without message of its own needs one of its sub-cases) -/
+def sshErr (b : Bytes) : Bool :=
+  let lb := b.map lower
+  Gen.SshErrors.table.any fun r =>
+    r.triggers.any (fun t => isInfix t lb) && (!r.msg.isEmpty || r.sub.any fun (t, _) => isInfix t lb)
+
 /-- units of a scripted operation: `g T` (GetPrompt), `s T strip cmd` (SendInput), `i T n events…`
     (SendInteractive); returns the programs and the unread tokens -/
 def parseUnits (cfg : Cfg) (re : Rx.Re) : Nat → List String → Option (List (Prog Bytes))
@@ -150,6 +173,44 @@ def handleC05 : List String → String
         | some dp, some ret, some cmd =>
           let cfg := rxCfg Gen.Rx.Channel.promptPattern dp (s2b exact) (s2b strip) ret
           showAns (answer .sendInput d (sendInputP cfg cmd T) fulls deliv k)
+        | _, _, _ => "bad-op"
+      | "sx", [depth, exact, strip, ret, cmd, interim, eager] =>
+        -- SendInput with options: interim prompt (a literal; `-` = none), eager
+        match depth.toNat?, fromHex ret, fromHex cmd, fromHex interim with
+        | some dp, some ret, some cmd, some lit =>
+          let cfg := rxCfg Gen.Rx.Channel.promptPattern dp (s2b exact) (s2b strip) ret
+          let ip : List (Bytes → Bool) := if lit.isEmpty then [] else [fun w => isInfix lit w]
+          showAns (answer .sendInput d (sendInputXP cfg cmd T ip (s2b eager)) fulls deliv k)
+        | _, _, _, _ => "bad-op"
+      | "ix", depth :: exact :: ret :: complete :: n :: rest =>
+        -- SendInteractive with exact input matching and complete patterns (literals)
+        match depth.toNat?, fromHex ret, hexList complete, n.toNat? with
+        | some dp, some ret, some cps, some n =>
+          match parseEvents n rest with
+          | some (es, _) =>
+            let cfg := rxCfg Gen.Rx.Channel.promptPattern dp (s2b exact) false ret
+            let comp : List (Bytes → Bool) := cps.map fun lit => fun w => isInfix lit w
+            showAns (answer .sendInteractive d (interactiveP cfg comp es (some T) []) fulls deliv k)
+          | none => "bad-op"
+        | _, _, _, _ => "bad-op"
+      | "as", [depth, ret, pass, pp] =>
+        -- in-channel SSH login
+        match depth.toNat?, fromHex ret, fromHex pass, fromHex pp with
+        | some dp, some ret, some p, some pp =>
+          let cfg := rxCfg Gen.Rx.Channel.promptPattern dp false false ret
+          let prog := authSSHP cfg sshErr (fun b => Rx.isMatch Gen.Rx.Channel.password b)
+            (fun b => Rx.isMatch Gen.Rx.Channel.passphrase b) p pp
+            Gen.Channel.passwordSeenMax Gen.Channel.passphraseSeenMax 16 [] 0 0 (some T)
+          let a := answer .auth d prog fulls deliv k
+          let strip (s : String) : String := if s.startsWith "ok:" then "ok:-" else s
+          showAns { a with spec := strip a.spec, model := strip a.model }
+        | _, _, _, _ => "bad-op"
+      | "cx", ret :: input :: n :: rest =>
+        match fromHex ret, fromHex input, n.toNat? with
+        | some ret, some input, some n =>
+          match parseCallbacksX n rest with
+          | some cbs => showAns (answer .callbacks d (callbacksP cbs 8 [input, ret] [] [] T) fulls deliv k)
+          | none => "bad-op"
         | _, _, _ => "bad-op"
       | "gp", [depth, ret] =>
         match depth.toNat?, fromHex ret with
@@ -197,6 +258,15 @@ def handleC05 : List String → String
         let prog := rpcOpP [] (fun rb => Rx.isMatch re rb) (T : Nat) ((Gen.Util.MaxTimeout : Nat) * 1000)
           Gen.Netconf.defaultTimeout source
         showAns (answer .rpc d prog fulls deliv k)
+      | "sg", depth :: ret :: nunits :: rest =>
+        -- a scripted generic-driver operation (batches) under the default prompt pattern
+        match depth.toNat?, fromHex ret, nunits.toNat? with
+        | some dp, some ret, some n =>
+          let cfg := rxCfg Gen.Rx.Channel.promptPattern dp false true ret
+          match parseUnits cfg Gen.Rx.Channel.promptPattern n rest with
+          | some us => showAns (answer .sendInput d (seqP us) fulls deliv k)
+          | none => "bad-op"
+        | _, _, _ => "bad-op"
       | "sq", depth :: ret :: wrap :: nunits :: rest =>
         -- a scripted network-driver operation over the three-level device: the first `wrap`
         -- units are an implicit acquire whose failure is reported as privilege error (0: none,
